@@ -633,3 +633,25 @@ pub fn run(plan: Plan, shards: usize, outdir: &str) {
     let _ = std::panic::take_hook();
     println!("{{\"records\":{},\"inputs\":{},\"calls\":{},\"panics\":{},\"shards\":{}}}", recs, total, calls, panics, shards);
 }
+
+/// `matcher-one`: re-executes the input of one recorded call record (replay of a violation).
+pub fn run_one(input: &str, out: &str) {
+    let v: serde_json::Value = serde_json::from_str(&std::fs::read_to_string(input).unwrap()).unwrap();
+    let r = if v.get("record").is_some() { &v["record"] } else { &v };
+    let cps = |k: &str| -> Vec<char> {
+        r[k].as_array().unwrap().iter().filter_map(|x| x.as_u64()).filter_map(|c| char::from_u32(c as u32)).collect()
+    };
+    let inp = Input {
+        fam: "X",
+        cfg: Cfg { ic: r["ic"].as_bool().unwrap(), nz: r["nz"].as_bool().unwrap(), paths: r["paths"].as_bool().unwrap() },
+        hay: cps("hay"),
+        needle: cps("needle"),
+    };
+    let pre: Vec<u32> = r["pre"].as_array().unwrap().iter().map(|x| x.as_u64().unwrap() as u32).collect();
+    std::panic::set_hook(Box::new(|_| {}));
+    let mut sess = Session::new();
+    let rec = sess.run(r["id"].as_u64().unwrap_or(1), &inp, &pre);
+    let _ = std::panic::take_hook();
+    std::fs::write(out, rec + "\n").unwrap();
+    println!("{{\"records\":1}}");
+}
